@@ -2,6 +2,7 @@ package main
 
 import (
 	"fmt"
+	"sort"
 	"strconv"
 	"strings"
 
@@ -60,6 +61,55 @@ func runC12(c *Ctx) {
 		L.Check(n >= 4, "R-C12-ATOMIC", "Allocator.compIdx", fmt.Sprintf("%d accesses, all through sync/atomic", n), "fewer than four accesses found", 0)
 	})
 
+	c.Group("R-C12-SLOW", "compIdx#writers", func() {
+		// who moves the bump pointer, and how: the lock-free fast path only ever ADDS to it; every write
+		// that repositions it (store, swap, compare-and-swap) is either the publication of the next chunk
+		// under the allocator mutex or Reset's rewind to 0 (a single-owner operation). A lock-free
+		// repositioning races with the locked publisher, which stores (bufIdx+1)<<32 unconditionally
+		// after its re-check and would rewind the pointer onto memory already handed out.
+		lc := newLockCtx(P, "z")
+		var desc []string
+		okAll := true
+		for _, fn := range P.SrcFuncs {
+			if !inZ(fn) {
+				continue
+			}
+			for _, acc := range fieldAccessesIn(fn, "Allocator", "compIdx") {
+				fa, ok := acc.(*ssa.FieldAddr)
+				if !ok || baseIsFresh(fa.X) {
+					continue
+				}
+				for _, r := range *fa.Referrers() {
+					call, ok := r.(*ssa.Call)
+					if !ok || call.Call.Args[0] != ssa.Value(fa) {
+						continue
+					}
+					n := calleeName(&call.Call)
+					cons := "compIdx#" + strings.TrimPrefix(n, "atomic.") + "@" + fname(fn)
+					switch {
+					case n == "atomic.LoadUint64":
+					case n == "atomic.AddUint64":
+						if fname(fn) != "z.Allocator.Allocate" {
+							okAll = false
+							L.Fail("R-C12-SLOW", cons, "the bump pointer is advanced outside Allocate", call.Pos())
+						}
+						desc = append(desc, "add@"+fname(fn))
+					case fname(fn) == "z.Allocator.Reset" && n == "atomic.StoreUint64" && isConst(call.Call.Args[1], "0"):
+						desc = append(desc, "store 0@"+fname(fn))
+					case fname(fn) == "z.Allocator.Allocate" && n == "atomic.StoreUint64" && lc.At(call).HasClass("Allocator.Mutex", "W"):
+						desc = append(desc, "locked store@"+fname(fn))
+					default:
+						okAll = false
+						L.Fail("R-C12-SLOW", cons, "the bump pointer is repositioned by "+n+" outside the allocator mutex (held: "+lc.At(call).String()+"): it races with the locked publisher, whose unconditional store of (bufIdx+1)<<32 then rewinds the pointer onto bytes already handed out", call.Pos())
+					}
+				}
+			}
+		}
+		sort.Strings(desc)
+		if okAll {
+			L.Check(len(desc) >= 3, "R-C12-SLOW", "compIdx#writers", "writers of the bump pointer: "+strings.Join(desc, ", "), "fewer than three writers found", 0)
+		}
+	})
 	c.Group("R-C12-SLOW", "Allocator.Allocate", func() {
 		fn := P.Fn("z", "Allocator", "Allocate")
 		L.Analysed(fname(fn))
